@@ -39,8 +39,8 @@ def run(ck, F):
             bad = sorted(kinds - scans.GOOD_FLOW) or ["unused"]
             how = "panics on a sink failure" if any("unwrap" in k for k in bad) else "a sink failure is not reported (false success)"
             ck.violation("R1", f"{short}#{n}", site, f"result of {callee} is {bad}: {how}", fn=fn)
-    ck.floor("R1", "sink write calls", n_sink, 60)
-    ck.floor("R1", "writer-function calls", n_writer, 10)
+    ck.floor("R1", "sink write calls", n_sink, 30)
+    ck.floor("R1", "writer-function calls", n_writer, 5)
     # R2
     froms = [i for i in F.lib.items["impls"] if i.get("trait") == "std::convert::From" and i["self_ty"] == "error::WriterError"
              and "std::io::Error" in (i.get("trait_ref") or "")]
